@@ -9,7 +9,7 @@ from oracle import wire
 from .common import MC, P, Q, RecTransport, loop_clean, new_loop
 
 PROPERTY = "C08"
-BUDGET_S = {"quick": 300, "thorough": 1800}
+BUDGET_S = {"quick": 600, "thorough": 1800}
 STUBS = ["struct/bytes lowering", "VirtualLoop + synchronous numeric getaddrinfo (H08c)"]
 ASSUMPTIONS = [
     "H08a proves the step function for every counter value 1..0xFFFF and both flag values: with the initial state (True, 1) this is, by induction, the whole 2 x 65535 cycle",
